@@ -8,6 +8,37 @@ func register(c *PropConfig) { propConfigs[c.ID] = c }
 
 func init() {
 	register(&PropConfig{
+		ID:       "C14",
+		Replay:   replayC14,
+		Level:    "other",
+		Also:     "C10",
+		Packages: []string{"./runtime", "."},
+		Corpus:   true,
+		Extra:    func(r *Run) { r.VerifyGenerated(r.corpus, "C10") },
+		Assume: []string{
+			"partial claim: confinement and lock discipline only - no interleaving semantics; data-race freedom and 'same bytes as when rendering alone' follow from confinement only together with the Go memory model and the documented concurrency contracts of sync.Pool, sync.Mutex and context.Context (assumed)",
+			"package-level variables that are never assigned after initialisation are treated as immutable (read from their initialiser); sync.Pool / sync.Mutex / *regexp.Regexp values are safe for concurrent use by their documentation",
+			"user expressions and user components embedded in templates are outside the claim (they may share state)",
+		},
+	})
+	register(&PropConfig{
+		ID:       "C06",
+		Replay:   replayC06,
+		Level:    "other",
+		Packages: []string{"./parser/v2", "./parser/v2/goexpression"},
+		Assume: []string{
+			"partial claim: only the functions that cut Go expressions out of the input and record their ranges; totality / termination / no-panic of the combinator parser on arbitrary bytes are not decided by this technique",
+			"the goexpression extractors return 0 <= start <= end <= len(content) (the upper clamp is proved on goexpression.extract; the lower bound comes from go/parser's token positions and is assumed); SliceArgs / Func return a prefix of the text they were given",
+		},
+	})
+	register(&PropConfig{
+		ID:       "C20",
+		Replay:   replayC20,
+		Level:    "other",
+		Packages: []string{"./cmd/templ/generatecmd/proxy"},
+		Assume:   []string{},
+	})
+	register(&PropConfig{
 		ID:       "C16",
 		Replay:   replayC16,
 		Packages: []string{"./parser/v2", "./generator", "./runtime"},
